@@ -640,6 +640,7 @@ func (h *hist) period(scenario string, nonPrime int) bool {
 	for i := 0; i < nonPrime; i++ {
 		switch scenario {
 		case "feed":
+			// large conversions at the maximum slip: they are credited at the floor and give the wallet Qi to convert back
 			if i == 0 {
 				for k := 0; k < 3; k++ {
 					h.quaiToQi(quai(int64(2_000_000+h.r.Intn(30_000_000))), -1, 900000, "beyond-10x-flow", scenario)
@@ -647,20 +648,36 @@ func (h *hist) period(scenario string, nonPrime int) bool {
 				h.quaiToQi(pctOf(h.flow(), 50), 9000, 600000, "below-flow", scenario)
 				h.quaiToQi(pctOf(h.flow(), 30), 100, 600000, "below-flow", scenario)
 			}
-		case "scripted":
+		case "scripted-quai":
 			if i == 0 {
 				h.quaiToQi(new(big.Int).Set(params.MinQuaiConversionAmount), h.pickSlip(), 600000, "minimum", scenario)
 				h.quaiToQi(new(big.Int).Sub(params.MinQuaiConversionAmount, big.NewInt(1)), h.pickSlip(), 600000, "below-minimum", scenario)
 				h.quaiToQi(pctOf(h.flow(), 20), 500, uint64(63100+9000*(1+h.r.Intn(3))), "below-flow", scenario)
+				h.quaiToQi(pctOf(h.flow(), 5), 40, 600000, "below-flow", scenario)
+				h.quaiToQi(quai(int64(30+h.r.Intn(300))), 100, 600000, "small", scenario)
 				h.quaiToQi(pctOf(h.flow(), 400), 30, 600000, "flow-to-10x", scenario)
+			}
+		case "huge":
+			if i == 0 {
 				h.quaiToQi(pctOf(h.flow(), 1500), 8999, 600000, "beyond-10x-flow", scenario)
 				h.quaiToQi(pctOf(h.flow(), 1200), 9001, 600000, "beyond-10x-flow", scenario)
-			} else if i == 1 {
+				h.quaiToQi(pctOf(h.flow(), 10), 9000, uint64(63100+9000*h.r.Intn(3)), "below-flow", scenario)
+			}
+		case "scripted-qi":
+			if i == 0 {
 				h.qiToQuai([]uint8{2}, 0, 400000, "dust", scenario)
 				h.qiToQuai([]uint8{6}, 9000, 0, "below-flow", scenario)
+				h.qiToQuai([]uint8{6, 4}, 200, 400000, "below-flow", scenario)
 				// a large one with a tight slip: refused
 				if us := h.usableUtxos(9); len(us) > 0 {
 					h.qiToQuai([]uint8{us[len(us)-1].Denom - 1}, 30, h.refundGas(), "beyond-10x-flow", scenario)
+				}
+				if us := h.usableUtxos(8); len(us) > 0 {
+					h.qiToQuai([]uint8{us[0].Denom - 1, 6}, 30, 0, "beyond-10x-flow", scenario)
+				}
+				// a refund that needs ten outputs while the fee above the minimum pays for fewer
+				if us := h.usableUtxos(10); len(us) > 0 {
+					h.qiToQuai([]uint8{9, 9, 9, 9, 8, 7, 6, 6, 6, 6}, 30, 0, "beyond-10x-flow", scenario)
 				}
 			}
 		case "fixed-set":
@@ -674,8 +691,8 @@ func (h *hist) period(scenario string, nonPrime int) bool {
 				h.nearBound()
 			}
 		case "mixed":
-			for k := h.r.Intn(4); k > 0; k-- {
-				if h.r.Intn(2) == 0 {
+			for k := 1 + h.r.Intn(4); k > 0; k-- {
+				if h.r.Intn(5) < 2 {
 					h.randomQuaiToQi(scenario)
 				} else {
 					h.randomQiToQuai(scenario)
@@ -724,19 +741,16 @@ func runHistory(t testing.TB, m *mon.M, r *rand.Rand, idx, blocks int) {
 		return
 	}
 	mined := func() int { return len(h.orders) }
-	scen := []string{"feed", "scripted"}
-	pool := []string{"mixed", "mixed", "fixed-set", "near-bound", "scripted", "mixed", "near-bound"}
+	scen := []string{"feed", "scripted-quai", "huge", "feed", "fixed-set", "scripted-qi"}
+	pool := []string{"mixed", "mixed", "mixed", "fixed-set", "near-bound", "scripted-quai", "scripted-qi", "huge"}
 	reorgAt := -1
 	if idx%2 == 1 {
-		reorgAt = 3 + r.Intn(3)
+		reorgAt = 6 + r.Intn(3)
 	}
 	for p := 0; mined() < blocks; p++ {
 		s := pool[r.Intn(len(pool))]
 		if p < len(scen) {
 			s = scen[p]
-		}
-		if p == 2 {
-			s = "fixed-set"
 		}
 		if p == reorgAt {
 			// a competing branch: the abandoned one carries conversions too
@@ -821,7 +835,7 @@ func TestC20Chain(t *testing.T) {
 		"the exchange rate stays at the genesis value in every reachable history (CalculateBetaFromMiningChoiceAndConversions holds it for the first TokenChoiceSetSize=4000 prime blocks, a const): rising/falling trajectories are out of reach at chain level, only the miner-difficulty component of the conversion varies",
 		"the discount pipeline (cubic, k-Quai) is not recomputed: for a reverted conversion only 'slip == MaxSlip can never be refused' is decidable from the statement")
 	rc := m.Rand("chain")
-	nh := m.N(4, 120)
+	nh := m.N(6, 180)
 	for hh := 0; hh < nh; hh++ {
 		runHistory(t, m, rc, hh, m.N(70, 90))
 	}
